@@ -161,7 +161,7 @@ func judgeTrace(inv *Inv, names map[string]bool, hasInv bool) string {
 			f := strings.Fields(e)
 			fatal := true
 			switch f[1] {
-			case "Error", "Errorf", "Fail", "Error-empty", "Errorf-empty":
+			case "Error", "Errorf", "Fail", "Error-empty", "Errorf-empty", "Fatalf-recovered":
 				fatal = false
 			}
 			if fatal {
